@@ -1,6 +1,7 @@
 SPECIFICATION Spec
 CONSTANTS
   Deviations <- AllDevs
+  Ranks <- R234
   Big = TRUE
 INVARIANT ImplInv
 INVARIANT NoSpuriousBlame
